@@ -238,6 +238,16 @@ func driveC12(o opts) error {
 				return fmt.Sprintf("maxInteger %v decoded as %v", f, got)
 			}
 		}
+		if i, ok := m["minInteger"].(int64); ok {
+			if got, _ := b.MinInteger(); int64(got) != i {
+				return fmt.Sprintf("minInteger %v decoded as %v", i, got)
+			}
+		}
+		if i, ok := m["maxInteger"].(int64); ok {
+			if got, _ := b.MaxInteger(); int64(got) != i {
+				return fmt.Sprintf("maxInteger %v decoded as %v", i, got)
+			}
+		}
 		if f, ok := num(m, "minReal"); ok {
 			if got, _ := b.MinReal(); got != f {
 				return fmt.Sprintf("minReal %v decoded as %v", f, got)
@@ -353,7 +363,9 @@ func driveC12(o opts) error {
 			if err != nil {
 				oracle = fmt.Sprintf("%s %s cannot be re-encoded: %v", t.name, b0, err)
 			} else {
-				_ = json.Unmarshal(b1, &j1)
+				dj := json.NewDecoder(strings.NewReader(string(b1)))
+				dj.UseNumber() // exact digits: integer bounds beyond 2^53 must come back as they went in
+				_ = dj.Decode(&j1)
 				d2, err := t.decode(b1)
 				if err != nil {
 					oracle = fmt.Sprintf("%s %s re-encodes to %s, which is rejected: %v", t.name, b0, b1, err)
@@ -398,6 +410,16 @@ func driveC12(o opts) error {
 		}
 		w.Count("roundtrip:" + kind)
 	}
+	// ... and the same kinds of message against the model of their codecs (Wire/Messages.v)
+	msg := func(v interface{}, kind string) {
+		term, js, ok := msgCase(syms, v)
+		if !ok {
+			goFail(kind, fmt.Sprintf("%s %#v does not survive encoding and decoding", kind, v), v)
+			return
+		}
+		w.Add(emit.Case{Term: term, JSON: map[string]interface{}{"target": kind, "value": js},
+			Key: "msg" + kind + js, Nontrivial: len(js) > 8, Class: "message:" + kind})
+	}
 	for i := 0; i < n; i++ {
 		switch g.Intn(9) {
 		case 0, 1, 2:
@@ -437,15 +459,20 @@ func driveC12(o opts) error {
 			}
 		case 3:
 			rtGo("result", wg.result(), func() interface{} { return &ovsdb.OperationResult{} })
+			msg(wg.msgResult(), "result")
 		case 4:
 			rtGo("tableupdates", wg.rowUpdates(), func() interface{} { return &ovsdb.TableUpdates{} })
+			msg(wg.msgUpdates(), "tableupdates")
 		case 5:
 			rtGo("tableupdates2", wg.rowUpdates2(), func() interface{} { return &ovsdb.TableUpdates2{} })
+			msg(wg.msgUpdates2(), "tableupdates2")
 		case 6:
 			rtGo("monitor_request", wg.monitorRequest(), func() interface{} { return &ovsdb.MonitorRequest{} })
+			msg(wg.msgMonitorRequest(), "monitor_request")
 		case 7:
 			rtGo("monitor_cond_since_reply", ovsdb.MonitorCondSinceReply{Found: g.Chance(0.5), LastTransactionID: gen.UUIDn(g.Intn(3)), Updates: wg.rowUpdates2()},
 				func() interface{} { return &ovsdb.MonitorCondSinceReply{} })
+			msg(ovsdb.MonitorCondSinceReply{Found: g.Chance(0.5), LastTransactionID: gen.UUIDn(g.Intn(3)), Updates: wg.msgUpdates2()}, "monitor_cond_since_reply")
 		default:
 			// whole schema: JSON -> schema -> JSON -> schema
 			j0 := wg.schemaJSON()
